@@ -6,10 +6,12 @@
    allocated hold no contract (true of every reachable world: addresses are allocated in order); without
    it the model's CreatePair could overwrite a pre-existing token record ([exec_frame_false] in
    Proofs/FrameProofs.v is the machine-checked counterexample on such an unreachable world).
-   PARTIAL: conservation is proved for payments and swaps (the only value-moving primitives besides
-   cw20 mint/burn); "LP supply changes only by provision/withdrawal" is given by same_config in
-   C02_settlement (swaps), C04_sys and C05_supply, and monitored on the real contracts. *)
-From HT Require Import Base.Prelude Num.Arith Amm.Formulas Amm.Guards World.World World.Observe Proofs.LedgerProofs Proofs.FrameProofs Proofs.AuthProofs Proofs.WFProofs Proofs.ReachProofs.
+   [C07_conserves]: EVERY operation conserves the total of every asset over any duplicate-free roster
+   containing the accounts it touches, except the assets in [supply_changing w o]: a cw20's own mint /
+   burn and the LP token of the pair for a provision or a withdrawal.  "LP supply changes only by
+   provision / withdrawal" is that exception list together with C04_sys and C05_supply (by exactly the
+   burned / minted amount). *)
+From HT Require Import Base.Prelude Num.Arith Amm.Formulas Amm.Guards World.World World.Observe Proofs.LedgerProofs Proofs.FrameProofs Proofs.AuthProofs Proofs.WFProofs Proofs.ReachProofs Proofs.ConserveProofs.
 
 Theorem C07_frame : forall w o w', (forall q, w_next w <= q -> w_tokens w q = None) ->
   exec w o = Ok w' -> frame (touched w o) w w'.
@@ -66,6 +68,12 @@ Print Assumptions C07_WF_harness_start.
 Print Assumptions C07_WF_preserved.
 Print Assumptions C07_WF_history.
 Print Assumptions C07_frame_reachable.
+Theorem C07_conserves : forall w o w' l, WF w -> exec w o = Ok w' ->
+  NoDup l -> (forall a, In a (touched w o) -> In a l) ->
+  forall y, ~ In y (supply_changing w o) -> sum_bal w' y l = sum_bal w y l.
+Proof. exact exec_conserves. Qed.
+
+Print Assumptions C07_conserves.
 Print Assumptions C07_frame.
 Print Assumptions C07_frame_unconditional.
 Print Assumptions C07_factory_moves_nothing.
